@@ -439,6 +439,9 @@ class MarkdownNormalizer(Renderer):
             # one after a heading) would end the quote when the output is read again.
             marker = self._second_prefix.rstrip()
             result = "\n".join(line if line else marker for line in result.split("\n"))
+        # A heading at the end of the quote asked for the next blank line to be skipped, but its
+        # own blank line was just stripped: the blank line after the quote must stay.
+        self._skip_next_blank_line = False
         self._prefix = self._second_prefix
         # After rendering a quote block, don't suppress the next item break
         # This ensures proper spacing after list items with quote blocks
@@ -781,6 +784,9 @@ class MarkdownNormalizer(Renderer):
             # one after a heading) would end the quote when the output is read again.
             marker = self._second_prefix.rstrip()
             result = "\n".join(line if line else marker for line in result.split("\n"))
+        # A heading at the end of the quote asked for the next blank line to be skipped, but its
+        # own blank line was just stripped: the blank line after the quote must stay.
+        self._skip_next_blank_line = False
 
         self._prefix = self._second_prefix
         # After rendering an alert block, don't suppress the next item break
